@@ -1302,11 +1302,11 @@ pub fn run(rep: &mut Report) {
     rep.rule.push_str("; runmore.gcno stream: whole runs whose inputs mix 1-2 LLVM-mode gcno stems (0-3 gcda each over the directory arguments in/g0.., k copies / different flows / a mismatching one, --llvm or sniffed header) with 0-3 lcov / JaCoCo files, one of eight stream types (the seven and markdown with --precision), options as runall: stdout == RunAll.run byte for byte; decoded report == aggregate of what each input contains (gcno: Gcno::compute in-process); k copies == k times one copy; second run with another order / thread count");
     rep.rule.push_str("; runmore.html stream: -t html -o out on mixed inputs with --precision / --abs-link-prefix / --html-resources / --no-date or the date read off the real index: every file below the output directory == RunAll.runHtml byte for byte; one page per reported file with a readable source, rows == DA records of the lcov run");
     rep.rule.push_str("; runmore.multi stream: 2-4 distinct -t out of nine kinds with -o <existing directory> and a random --sort-output-types list: every file below the directory == RunAll.runMulti byte for byte; every stream file decodes to the aggregate");
-    let n = rep.budget(24, 10);
+    let n = rep.budget(48, 8);
     stream(rep, "gcno", 0xC02_6C40, n, &|rng, i| gen_gcno_case(rng, STREAM_TYPES[(i as usize) % STREAM_TYPES.len()], i / STREAM_TYPES.len() as u64));
-    let n = rep.budget(9, 10);
+    let n = rep.budget(18, 8);
     stream(rep, "html", 0xC02_4711, n, &|rng, i| gen_html_case(rng, i));
-    let n = rep.budget(8, 10);
+    let n = rep.budget(16, 8);
     stream(rep, "multi", 0xC02_3117, n, &|rng, i| gen_multi_case(rng, i));
 }
 
